@@ -26,6 +26,7 @@ type GenOpt struct {
 	Shape                string
 	NoAfter              bool
 	BindKinds            bool // also bind structs with func fields and StatePrefix bindings
+	DanglingPct          int  // probability (%) that a schema gets references to undefined states in Add / Remove / After (Schema.Parse drops them)
 }
 
 var stateLetters = "abcdefghijklmnopqrstuvwxyz"
@@ -72,6 +73,33 @@ func genSchema(r *Rng, o GenOpt) []HState {
 		}
 		// Schema.Parse reports a Require-Remove conflict as an error: avoid
 		s.Remove = intsMinus(s.Remove, s.Require)
+	}
+	if o.DanglingPct > 0 && r.Chance(o.DanglingPct) {
+		// references to states the schema does not define, at random positions
+		// of the lists (indexes >= len(sts) are named UndefinedN by the executor)
+		ins := func(l []int, x int) []int {
+			at := r.Intn(len(l) + 1)
+			ret := append([]int{}, l[:at]...)
+			ret = append(ret, x)
+			return append(ret, l[at:]...)
+		}
+		for k := 0; k < r.Range(1, 3); k++ {
+			s := &sts[r.Intn(n)]
+			u := n + 1 + r.Intn(3)
+			switch r.Intn(3) {
+			case 0:
+				// an Add fan with a dangling entry among defined ones
+				for len(s.Add) < 2 {
+					s.Add = appendUniq(s.Add, r.Intn(n))
+				}
+				s.Add = ins(s.Add, u)
+				s.Remove = intsMinus(s.Remove, s.Add)
+			case 1:
+				s.Remove = ins(s.Remove, u)
+			default:
+				s.After = ins(s.After, u)
+			}
+		}
 	}
 	switch o.Shape {
 	case "addchain":
